@@ -917,11 +917,305 @@ fn explore_hostile(cfg: &Cfg, max_prefix: usize, report: &mut Report) -> HStats 
     stats
 }
 
+
+// ---------------------------------------------------------------- greedy (but conforming) peer
+
+/// One scenario of the greedy-peer sweep: SDU lengths sent back to back by a peer that keeps
+/// every segment-level rule (sequence, window, flags, lengths) but sends SDUs of any size and
+/// never waits for the application at the node; `eager` = the node's application fetches as
+/// soon as a message is complete, otherwise only when the peer's window is exhausted.
+#[derive(Clone, Debug)]
+struct Greedy {
+    gatt_mtu: Option<u16>,
+    sdus: Vec<usize>,
+    eager: bool,
+}
+
+fn greedy_json(g: &Greedy) -> Value {
+    json!({"harness": "greedy", "gatt_mtu": g.gatt_mtu, "sdus": g.sdus, "eager": g.eager})
+}
+
+fn greedy_from(v: &Value) -> Greedy {
+    Greedy { gatt_mtu: v["gatt_mtu"].as_u64().map(|x| x as u16), sdus: v["sdus"].as_array().unwrap().iter().map(|x| x.as_u64().unwrap() as usize).collect(), eager: v["eager"].as_bool().unwrap_or(false) }
+}
+
+#[derive(Default)]
+struct GOut {
+    violation: Option<(String, String)>,
+    segments_accepted: u64,
+    segments_refused: u64,
+    fetched: u64,
+    /// bytes in the node's ring buffer at its fullest
+    max_fill: u32,
+}
+
+fn run_greedy(g: &Greedy, verbose: bool) -> GOut {
+    let mut out = GOut::default();
+    let cfg = Cfg { gatt_mtu: g.gatt_mtu, relaxed: false, msgs_a: vec![], msgs_b: vec![] };
+    let mut s = Sys::new(&cfg);
+    // real handshake between the two real ends
+    for act in [Act::OutA, Act::DelAB, Act::OutB, Act::DelBA] {
+        s.apply(act);
+    }
+    let st = s.b.btp.verif_state().0;
+    if st[0] == 0 || s.fault.is_some() {
+        out.violation = Some(("C18:greedy:harness".into(), format!("handshake did not complete: {:?} {:?}", st, s.fault)));
+        return out;
+    }
+    let (mtu, window) = (st[2] as usize, st[3]);
+    let node = &s.b.btp;
+    // the peer's view: its own next sequence number, its unacknowledged segments, the node's
+    // last sequence number seen and whether that still has to be acknowledged
+    let mut seq = 0u8;
+    let mut unacked = 0u32;
+    let mut node_seq_to_ack: Option<u8> = Some(0); // the handshake response is the node's segment 0
+    let mut completed: VecDeque<usize> = VecDeque::new(); // indices of SDUs completely accepted, not yet fetched
+    let mut fetched = 0usize;
+    let fetch_one = |completed: &mut VecDeque<usize>, out: &mut GOut| -> bool {
+        let mut buf = vec![0u8; 4096];
+        match common::catch(|| poll_once(node.recv(&mut buf))) {
+            Err(p) => {
+                out.violation = Some((format!("C18:greedy:panic:{}", p.class()), format!("recv: {}", p)));
+                false
+            }
+            Ok(None) => false,
+            Ok(Some(Err(e))) => {
+                out.violation = Some(("C18:greedy:recv-error".into(), format!("{:?} with {} complete SDUs accepted and not yet fetched", e, completed.len())));
+                false
+            }
+            Ok(Some(Ok((n, _)))) => {
+                out.fetched += 1;
+                let Some(idx) = completed.pop_front() else {
+                    out.violation = Some(("C18:greedy:message-delivered-that-was-never-completed".into(), format!("{} bytes", n)));
+                    return false;
+                };
+                let expect = message(0, idx, g.sdus[idx]);
+                if buf[..n] != expect[..] {
+                    let pos = buf[..n].iter().zip(expect.iter()).position(|(a, b)| a != b);
+                    out.violation = Some(("C18:greedy:corrupted-message-delivered".into(), format!("SDU #{} ({} bytes, every segment of it was accepted) comes out as {} bytes, first difference at {:?}", idx, expect.len(), n, pos)));
+                    return false;
+                }
+                true
+            }
+        }
+    };
+    let mut pump_acks = |unacked: &mut u32, node_seq_to_ack: &mut Option<u8>, out: &mut GOut| {
+        let mut b = [0u8; 600];
+        for _ in 0..4 {
+            match common::catch(|| node.process_outgoing(g.gatt_mtu, &mut b)) {
+                Err(p) => {
+                    out.violation = Some((format!("C18:greedy:panic:{}", p.class()), format!("process_outgoing: {}", p)));
+                    return;
+                }
+                Ok(Ok(n)) if n > 0 => {
+                    if let Some(seg) = parse(&b[..n]) {
+                        if seg.ack.is_some() {
+                            // acks are cumulative: the node acknowledges the last segment it accepted
+                            *unacked = 0;
+                        }
+                        if seg.seq.is_some() {
+                            *node_seq_to_ack = seg.seq;
+                        }
+                    }
+                }
+                _ => return,
+            }
+        }
+    };
+    'sdus: for (idx, &len) in g.sdus.iter().enumerate() {
+        let data = message(0, idx, len);
+        let mut off = 0usize;
+        let mut first = true;
+        while first || off < len {
+            // window: a conforming sender never has more than `window` - 1 unacknowledged segments
+            // outstanding beyond what the node can take; when it is exhausted the node's application
+            // has to make room (fetch) and the node has to acknowledge
+            let mut guard = 0;
+            while unacked >= window {
+                pump_acks(&mut unacked, &mut node_seq_to_ack, &mut out);
+                if out.violation.is_some() {
+                    return out;
+                }
+                if unacked < window {
+                    break;
+                }
+                if !fetch_one(&mut completed, &mut out) {
+                    if out.violation.is_none() && verbose {
+                        println!("  peer blocked: window exhausted, nothing to fetch");
+                    }
+                    break 'sdus;
+                }
+                fetched += 1;
+                guard += 1;
+                if guard > 64 {
+                    break 'sdus;
+                }
+            }
+            let ack = node_seq_to_ack.take();
+            let hdr = 1 + ack.is_some() as usize + 1 + if first { 2 } else { 0 };
+            let room = mtu - hdr;
+            let take = room.min(len - off);
+            let last = off + take == len;
+            let mut flags = 0u8;
+            if first {
+                flags |= F_BEGIN;
+            } else {
+                flags |= F_CONT;
+            }
+            if last {
+                flags |= F_END;
+            }
+            if ack.is_some() {
+                flags |= F_ACK;
+            }
+            let seg = Seg { flags, opcode: None, ack, seq: Some(seq), msg_len: first.then_some(len as u16), payload: data[off..off + take].to_vec() };
+            let raw = encode(&seg);
+            let res = common::catch(|| node.process_incoming(g.gatt_mtu, ADDR_A, &raw));
+            match res {
+                Err(p) => {
+                    out.violation = Some((format!("C18:greedy:panic:{}", p.class()), format!("segment {} of SDU #{}: {}", hex(&raw[..raw.len().min(8)]), idx, p)));
+                    return out;
+                }
+                Ok(Err(_)) => {
+                    out.segments_refused += 1;
+                    if verbose {
+                        println!("  segment seq {} of SDU #{} (offset {}, {} payload bytes) refused; node {:?}", seq, idx, off, take, node.verif_state().0);
+                    }
+                    // a refused segment ends the conversation (the real transport drops the session);
+                    // what was completed before must still come out intact
+                    break 'sdus;
+                }
+                Ok(Ok(())) => {
+                    out.segments_accepted += 1;
+                    seq = seq.wrapping_add(1);
+                    unacked += 1;
+                    off += take;
+                    first = false;
+                    out.max_fill = out.max_fill.max(node.verif_state().0[12]);
+                    if verbose {
+                        println!("  segment seq {} of SDU #{} accepted ({} payload bytes{}); node {:?}", seq.wrapping_sub(1), idx, take, if last { ", final" } else { "" }, node.verif_state().0);
+                    }
+                }
+            }
+            if last {
+                completed.push_back(idx);
+                if g.eager {
+                    if !fetch_one(&mut completed, &mut out) {
+                        if out.violation.is_none() {
+                            out.violation = Some(("C18:greedy:complete-message-not-available".into(), format!("SDU #{} was completely accepted, the application cannot fetch it", idx)));
+                        }
+                        return out;
+                    }
+                    fetched += 1;
+                }
+            }
+            pump_acks(&mut unacked, &mut node_seq_to_ack, &mut out);
+            if out.violation.is_some() {
+                return out;
+            }
+        }
+    }
+    // drain: everything completely accepted comes out, in order and intact
+    while !completed.is_empty() {
+        if !fetch_one(&mut completed, &mut out) {
+            if out.violation.is_none() {
+                out.violation = Some(("C18:greedy:complete-message-not-available".into(), format!("{} completely accepted SDUs cannot be fetched", completed.len())));
+            }
+            return out;
+        }
+        fetched += 1;
+    }
+    // and nothing else does
+    let mut buf = vec![0u8; 4096];
+    if let Ok(Some(Ok((n, _)))) = common::catch(|| poll_once(node.recv(&mut buf))) {
+        out.violation = Some(("C18:greedy:message-delivered-that-was-never-completed".into(), format!("{} bytes after {} fetched messages", n, fetched)));
+    }
+    out
+}
+
+struct GStats {
+    scenarios: u64,
+    accepted: u64,
+    refused: u64,
+    fetched: u64,
+    scenarios_with_refusal: u64,
+    max_fill: u32,
+}
+
+fn greedy_catalog(quick: bool) -> Vec<Greedy> {
+    const CAP: usize = 3166; // the node's receive ring buffer (2 x the largest Matter datagram)
+    let mut v = Vec::new();
+    for gatt in [Some(247u16), Some(100), None] {
+        let seg = gatt.map(|g| g.clamp(23, 247)).unwrap_or(23) as usize - 3;
+        let one = seg - 4; // payload of a single-segment SDU without a piggy-backed ack
+        // small SDUs that follow: every single-segment size, and the first two-segment sizes
+        let followers: Vec<usize> = if quick && seg > 100 { (1..=one + 2).step_by(1).collect() } else { (1..=one + 2).collect() };
+        // a first SDU (or pair of SDUs) that leaves F bytes free, for every F around the follower sizes
+        for free in 0..=one + 6 {
+            for &f in &followers {
+                // only the neighbourhood of "fits exactly" (all of it in the thorough tier)
+                let near = (f as i64 - free as i64).abs() <= 4 || (f as i64 + 2 - free as i64).abs() <= 4;
+                if quick && !near {
+                    continue;
+                }
+                if !quick && !near && (f % 7 != 0 || free % 5 != 0) {
+                    continue;
+                }
+                // one oversize SDU: 2 + L1 = CAP - free
+                if CAP >= free + 2 + 1 {
+                    v.push(Greedy { gatt_mtu: gatt, sdus: vec![CAP - free - 2, f], eager: false });
+                }
+                // a largest legitimate datagram followed by a second SDU: 2 + 1583 + 2 + L = CAP - free
+                if CAP >= free + 4 + 1583 + 1 {
+                    v.push(Greedy { gatt_mtu: gatt, sdus: vec![1583, CAP - free - 4 - 1583, f], eager: false });
+                }
+            }
+        }
+        // sizes around and beyond the capacity, alone and eagerly fetched
+        for l in [1usize, one, one + 1, 1583, 1584, CAP - 3, CAP - 2, CAP - 1, CAP, CAP + 1, 4000, 65535] {
+            for eager in [false, true] {
+                v.push(Greedy { gatt_mtu: gatt, sdus: vec![l, 5, l], eager });
+            }
+        }
+    }
+    v
+}
+
+fn explore_greedy(quick: bool, report: &mut Report) -> GStats {
+    let cat = greedy_catalog(quick);
+    let results: Vec<(Greedy, GOut)> = cat.par_iter().map(|g| (g.clone(), run_greedy(g, false))).collect();
+    let mut st = GStats { scenarios: 0, accepted: 0, refused: 0, fetched: 0, scenarios_with_refusal: 0, max_fill: 0 };
+    for (g, o) in results {
+        st.scenarios += 1;
+        st.accepted += o.segments_accepted;
+        st.refused += o.segments_refused;
+        st.fetched += o.fetched;
+        st.scenarios_with_refusal += (o.segments_refused > 0) as u64;
+        st.max_fill = st.max_fill.max(o.max_fill);
+        if let Some((sig, what)) = o.violation {
+            report.violation(sig, format!("{:?}: {}", g, what), greedy_json(&g));
+        }
+    }
+    st
+}
+
 // ---------------------------------------------------------------- driver
 
 fn replay(ctx: &Ctx, path: &std::path::Path) -> i32 {
     let doc: Value = serde_json::from_str(&std::fs::read_to_string(path).expect("replay file")).expect("json");
     let r = &doc["replay"];
+    if r["harness"] == "greedy" {
+        let g = greedy_from(r);
+        let mut report = Report::new();
+        println!("{:?}", g);
+        let o = run_greedy(&g, true);
+        println!("segments accepted {} refused {} fetched {} fullest buffer {}", o.segments_accepted, o.segments_refused, o.fetched, o.max_fill);
+        if let Some((sig, what)) = o.violation {
+            println!("  {} {}", sig, what);
+            report.violation(sig, what, r.clone());
+        }
+        return common::finish(ctx, report, Evidence::new("model_checking"));
+    }
     let cfg = cfg_from(&r["cfg"]);
     let acts: Vec<Act> = r["actions"].as_array().unwrap().iter().filter(|a| !a.as_str().unwrap().starts_with('<')).map(|a| act_from(a.as_str().unwrap())).collect();
     std::env::set_var("MC_SHOW_PANICS", "1");
@@ -1013,6 +1307,7 @@ pub fn run(ctx: &Ctx) -> i32 {
         })
         .collect();
     let mut report = Report::new();
+    let greedy = explore_greedy(quick, &mut report);
     let (mut states, mut transitions, mut completions, mut injections, mut hstates, mut acc, mut refu, mut wrapped, mut multi) = (0u64, 0u64, 0u64, 0u64, 0u64, 0u64, 0u64, 0u64, 0u64);
     let mut per = Vec::new();
     for (r, w, wrap, h, cfg) in results {
@@ -1032,20 +1327,25 @@ pub fn run(ctx: &Ctx) -> i32 {
     let sample_cfg = &cfgs[0];
     let sample_hist = default_prefix(sample_cfg, 3);
     let mut ev = Evidence::new("model_checking");
-    ev.set("states", json!(states))
-        .set("transitions", json!(transitions))
-        .set("traces_validated_against_impl", json!(transitions + completions))
+    ev.set("states", json!(states + greedy.scenarios))
+        .set("transitions", json!(transitions + greedy.accepted + greedy.refused))
+        .set("traces_validated_against_impl", json!(transitions + completions + greedy.scenarios))
         .set("samples", json!([
             {"well_behaved": {"cfg": cfg_json(sample_cfg), "actions": sample_hist.iter().map(act_name).collect::<Vec<_>>()}},
             {"hostile_injection": hex(&hostile_catalog(None)[100])},
         ]))
         .set("exhaustive", json!(true))
         .set("per_configuration", Value::Array(per))
-        .set("vacuity", json!({"fair_completions_run": completions, "completions_crossing_seq_wrap": wrapped, "completions_with_multi_segment_messages": multi, "hostile_states": hstates, "hostile_injections": injections, "hostile_accepted": acc, "hostile_refused": refu}))
-        .set("rule", json!(format!("well-behaved: BFS depth {} over 9 actions (submit/poll/deliver/fetch per end + ack timer) from the initial state and depth {} from states just before the sequence wrap, every visited state additionally completed with the fair schedule; hostile: every prefix of the fair conversation x both ends x (all 192 non-handshake flag bytes x 4 seq x 4 ack x payload/declared-length boundary values + 1280 handshake frames)", depth, wrap_depth)));
+        .set("vacuity", json!({"fair_completions_run": completions, "completions_crossing_seq_wrap": wrapped, "completions_with_multi_segment_messages": multi, "hostile_states": hstates, "hostile_injections": injections, "hostile_accepted": acc, "hostile_refused": refu,
+            "greedy_scenarios": greedy.scenarios, "greedy_segments_accepted": greedy.accepted, "greedy_segments_refused": greedy.refused, "greedy_scenarios_ending_in_a_refusal": greedy.scenarios_with_refusal, "greedy_messages_fetched_and_compared": greedy.fetched, "greedy_fullest_receive_buffer": greedy.max_fill}))
+        .set("rule", json!(format!("well-behaved: BFS depth {} over 9 actions (submit/poll/deliver/fetch per end + ack timer) from the initial state and depth {} from states just before the sequence wrap, every visited state additionally completed with the fair schedule; hostile: every prefix of the fair conversation x both ends x (all 192 non-handshake flag bytes x 4 seq x 4 ack x payload/declared-length boundary values + 1280 handshake frames); greedy peer: after a real handshake a peer that keeps every segment-level rule sends back to back SDUs of lengths [L1, f] and [1583, L, f] with the first one or two chosen so that F bytes of the 3166-byte receive buffer stay free, for every F in 0..=(segment payload + 6) and every follower length f in 1..=(single-segment payload + 2) with |f - F| <= 4 or |f + 2 - F| <= 4 (thorough: plus a 1/35 grid of the remaining pairs), for GATT MTU 247 / 100 / none, plus SDU lengths around and beyond the buffer capacity with an eager and a lazy application; every completely accepted SDU must come out intact and in order, nothing else may come out", depth, wrap_depth)));
     ev.assume("GATT delivers segments in order and without loss (two FIFO queues)");
     ev.assume("the acknowledgement deadline is checked in states where the application has fetched every complete message (the implementation withholds acks while a complete message waits, by design)");
     ev.assume("a hostile handshake frame on an established session (session restart) is left open by the property; only 'no panic' is required of it");
+    if report.violations.is_empty() && (greedy.fetched == 0 || greedy.scenarios_with_refusal == 0 || greedy.max_fill < 3100) {
+        eprintln!("MACHINERY: vacuous C18 greedy-peer sweep (fetched {}, refusals {}, fullest buffer {})", greedy.fetched, greedy.scenarios_with_refusal, greedy.max_fill);
+        return 2;
+    }
     if report.violations.is_empty() && (completions == 0 || injections == 0 || wrapped == 0) {
         eprintln!("MACHINERY: vacuous C18 run (completions {}, injections {}, wrapped {})", completions, injections, wrapped);
         return 2;
